@@ -143,7 +143,7 @@ var props = map[string]*propConfig{
 	"C10": {
 		Harness: "h1", Level: "exploration",
 		Families: []family{
-			{Name: "histories", Flags: map[string]string{"family": "histories"}, Quick: 8000, Thorough: 2400000},
+			{Name: "histories", Flags: map[string]string{"family": "histories"}, Quick: 16000, Thorough: 2400000},
 			{Name: "independent-writer", Flags: map[string]string{"family": "encoded"}, Quick: 4000, Thorough: 1200000},
 		},
 		QuickBudget: 90 * time.Second, ThoroughBudget: 25 * time.Minute, Chunk: 50,
